@@ -1,9 +1,10 @@
-(** C01 — consequences of the invariant [inv]: the ledger the wallet reports is the one the
+(** C01 — consequences of the invariant [WComplete.inv] (universe with position-dependent
+    nullifiers): the ledger the wallet reports is the one the
     chain and the set of scanned heights determine. *)
 From Coq Require Import Permutation.
 From V.Lib Require Import Base.
 From V.Gen Require Import C01Consts.
-From V.C01 Require Import Model Spec Proofs Tables Chain Complete.
+From V.C01 Require Import Model Spec Proofs Tables Chain WProofs WTables WComplete.
 Local Open Scope N_scope.
 
 (** * Subsequences (to transport NoDup from the whole chain to its scanned part) *)
@@ -82,7 +83,8 @@ Variable c : list block.
 Hypothesis Hv : valid_chain birthday c.
 Variable U : list block.
 Hypothesis HcU : incl c U.
-Hypothesis HU : valid_universe U.
+Hypothesis HU : weak_universe U.
+Hypothesis HownV : own_versions c U.
 
 Local Notation scanned_blocks := (Spec.scanned_blocks c).
 
@@ -170,17 +172,23 @@ Proof.
   - exists b, t. repeat split; try assumption. congruence.
 Qed.
 
+Lemma keys_nodup : NoDup (map n_key (w_notes s)).
+Proof. destruct (iv_sound _ _ _ Hinv) as [_ S2 S3 _ _]. apply (sound_nodup_keys U HU); assumption. Qed.
+
 Lemma note_of_output b t o a :
   In b c -> In t (b_txs b) -> In o (t_outs t) -> o_owner o = Some a -> Q (b_height b) ->
-  exists n, find_note (o_key o) (w_notes s) = Some n /\ In n (w_notes s) /\ n_key n = o_key o
-            /\ n_acct n = a /\ n_value n = o_value o /\ n_recv n = t_id t.
+  exists n, find_id (out_id t o) (w_notes s) = Some n /\ In n (w_notes s) /\ n_key n = o_key o
+            /\ n_acct n = a /\ n_value n = o_value o /\ n_recv n = t_id t /\ n_idx n = o_idx o.
 Proof.
   intros Hb Ht Ho Hown HQ. assert (Hoo : owned o = true) by (unfold owned; rewrite Hown; reflexivity).
-  pose proof (iv_has _ _ _ Hinv b t o Hb Ht HQ Ho Hoo) as Hhas. apply find_note_has in Hhas. destruct Hhas as [n Hn].
-  destruct (find_note_In _ _ _ Hn) as [Hin Hk]. exists n. split; [assumption|]. split; [assumption|]. split; [assumption|].
+  pose proof (iv_has _ _ _ Hinv b t o Hb Ht HQ Ho Hoo) as Hkey. unfold key_id in Hkey.
+  destruct (find_id (out_id t o) (w_notes s)) as [n|] eqn:Hn; [|discriminate]. cbn in Hkey. injection Hkey as Hk.
+  destruct (find_id_In _ _ _ Hn) as [Hin Hnid]. exists n. split; [reflexivity|]. split; [assumption|]. split; [assumption|].
   destruct (iv_sound _ _ _ Hinv) as [_ S2 _ _ _]. rewrite Forall_forall in S2.
-  destruct (S2 _ Hin) as [[b1 [t1 [o1 [Hb1 [Ht1 [Ho1 [Eo [Ek [Ev [Er _]]]]]]]]]] _].
-  destruct (vu_out _ HU b1 t1 o1 b t o) as [-> ->]; auto; [congruence|].
+  destruct (S2 _ Hin) as [[b1 [t1 [o1 [Hb1 [Ht1 [Ho1 [Eo [Ek [Ev [Er Ei]]]]]]]]]] _].
+  assert (Eid : out_id t1 o1 = out_id t o) by (apply (wu_out _ HU b1 t1 o1 b t o); auto; congruence).
+  pose proof (versions_nonf U HU b1 t1 o1 b t o Hb1 Ht1 Ho1 (HcU _ Hb) Ht Ho Eid) as En.
+  unfold out_nonf in En. inversion En as [[E1 E2 E3 E4]]. unfold out_id in Eid. inversion Eid as [[E6 E5 E7]].
   repeat split; congruence.
 Qed.
 
@@ -194,7 +202,7 @@ Lemma balance_perm a p :
   Permutation (map (fun n => (n_key n, n_value n)) (bal_notes s target a p))
               (map (fun e : out * N * N => (ekey e, o_value (fst (fst e)))) (filter (led_filter a p) (owned_outs (scanned_blocks s)))).
 Proof.
-  pose proof (iv_sound _ _ _ Hinv) as [_ S2 S3 _ _].
+  pose proof (iv_sound _ _ _ Hinv) as [_ S2 S3 _ _]. pose proof keys_nodup as S3k.
   apply NoDup_Permutation.
   - apply NoDup_of_fst. rewrite map_map. cbn [fst]. unfold bal_notes. apply filter_map_NoDup. assumption.
   - apply NoDup_of_fst. rewrite map_map. cbn [fst]. apply filter_map_NoDup. apply owned_keys_nodup.
@@ -203,22 +211,27 @@ Proof.
       intros [n [E Hn]]. inversion E; subst k v. clear E. unfold bal_notes in Hn. apply filter_In in Hn. destruct Hn as [Hn Hf].
       apply andb_true_iff in Hf. destruct Hf as [Hf Hcounts]. apply andb_true_iff in Hf. destruct Hf as [Ha Hp].
       apply N.eqb_eq in Ha, Hp. unfold note_counts in Hcounts. apply andb_true_iff in Hcounts. destruct Hcounts as [Hrecv Hnosp].
-      rewrite Forall_forall in S2. destruct (S2 _ Hn) as [[bU [tU [o [HbU [HtU [Ho [Eo [Ek [Ev [Er _]]]]]]]]]] Hsp].
+      rewrite Forall_forall in S2. destruct (S2 _ Hn) as [[bU [tU [oU [HbU [HtU [HoU [Eo [Ek [Ev [Er Ei]]]]]]]]]] Hsp].
       destruct (unexpired_scanned _ Hrecv) as [b [t [Hb [Ht [Hidt HQ]]]]].
-      assert (t = tU) by (apply (vu_tx _ HU b t bU tU); auto; congruence). subst tU.
+      (* the chain's version of the output *)
+      destruct (same_tx_out U HU bU tU oU b t HbU HtU HoU (HcU _ Hb) Ht) as [o [Ho En]]; [congruence|].
+      unfold out_nonf in En. inversion En as [[E1 E2 E3 E4]].
+      assert (Hoo : owned o = true) by (unfold owned; rewrite E1, Eo; reflexivity).
+      assert (Eid : out_id t o = nid n) by (unfold out_id, nid; rewrite <- Ek; cbn [o_key fst]; congruence).
+      pose proof (iv_has _ _ _ Hinv b t o Hb Ht HQ Ho Hoo) as Hkey. unfold key_id in Hkey.
+      rewrite Eid, (In_find_id _ _ S3 Hn) in Hkey. cbn in Hkey. injection Hkey as Hk.
       exists (o, t_id t, b_height b). split; [unfold ekey; cbn [fst]; congruence|].
       apply filter_In. split.
-      * apply in_owned_outs. exists b, t. repeat split; try assumption; [apply in_scanned; auto | unfold owned; rewrite Eo; reflexivity].
-      * unfold led_filter. cbn [fst]. rewrite Eo, Ha, N.eqb_refl. cbn [andb].
-        assert (Hpool : o_pool o = p) by (rewrite <- Hp, <- Ek; reflexivity). rewrite Hpool, N.eqb_refl. cbn [andb].
+      * apply in_owned_outs. exists b, t. repeat split; try assumption. apply in_scanned; auto.
+      * unfold led_filter. cbn [fst]. rewrite E1, Eo, Ha, N.eqb_refl. cbn [andb].
+        assert (Hpool : o_pool o = p) by (rewrite <- Hp, Hk; reflexivity). rewrite Hpool, N.eqb_refl. cbn [andb].
         destruct (spenders (scanned_blocks s) (o_key o)) as [|x l] eqn:Es; [reflexivity|]. exfalso.
         assert (Hne : ~ (forall b' t', In b' (scanned_blocks s) -> In t' (b_txs b') -> ~ In (o_key o) (t_spends t'))).
         { intros Hc. apply spenders_nil in Hc. rewrite Hc in Es. discriminate. }
-        apply Hne. intros b' t' Hb' Ht' Hk. apply in_scanned in Hb'. destruct Hb' as [Hb' HQ'].
-        assert (Hoo : owned o = true) by (unfold owned; rewrite Eo; reflexivity).
-        pose proof (iv_spent _ _ _ Hinv b t o b' t' Hb Ht HQ Ho Hoo Hb' Ht' HQ' Hk) as Hin.
-        pose proof (iv_spm _ _ _ Hinv b t o b' t' Hb Ht HQ Ho Hoo Hb' Ht' HQ' Hk) as Hm.
-        unfold spent_of in Hin. rewrite Ek, (In_find_note _ _ S3 Hn) in Hin.
+        apply Hne. intros b' t' Hb' Ht' Hkk. apply in_scanned in Hb'. destruct Hb' as [Hb' HQ'].
+        pose proof (iv_spent _ _ _ Hinv b t o b' t' Hb Ht HQ Ho Hoo Hb' Ht' HQ' Hkk) as Hin.
+        pose proof (iv_spm _ _ _ Hinv b t o b' t' Hb Ht HQ Ho Hoo Hb' Ht' HQ' Hkk) as Hm.
+        unfold spent_id in Hin. rewrite Eid, (In_find_id _ _ S3 Hn) in Hin.
         apply negb_true_iff in Hnosp. assert (existsb (tx_unexpired target (w_txs s)) (n_spent n) = true); [|congruence].
         apply existsb_exists. exists (t_id t'). split; [assumption | apply mined_unexpired; assumption].
     + (* and conversely *)
@@ -228,19 +241,23 @@ Proof.
       unfold led_filter in Hf. cbn [fst] in Hf. apply andb_true_iff in Hf. destruct Hf as [Hf Hns].
       apply andb_true_iff in Hf. destruct Hf as [Ha Hp]. destruct (o_owner o) as [a'|] eqn:Eo; [|discriminate].
       apply N.eqb_eq in Ha, Hp. subst a'.
-      destruct (note_of_output b t o a Hb Ht Ho Eo HQ) as [n [Hfn [Hn [Ek [Ea [Ev Er]]]]]].
+      destruct (note_of_output b t o a Hb Ht Ho Eo HQ) as [n [Hfn [Hn [Ek [Ea [Ev [Er Ei]]]]]]].
       exists n. split; [congruence|]. unfold bal_notes. apply filter_In. split; [assumption|].
       rewrite Ea, N.eqb_refl, Ek. cbn [fst o_key]. rewrite Hp, N.eqb_refl. cbn [andb].
       unfold note_counts. apply andb_true_iff. split.
       * rewrite Er. apply mined_unexpired. exact (iv_recv _ _ _ Hinv b t o Hb Ht HQ Ho Hoo).
       * apply negb_true_iff. destruct (existsb (tx_unexpired target (w_txs s)) (n_spent n)) eqn:Ex; [|reflexivity]. exfalso.
         apply existsb_exists in Ex. destruct Ex as [x [Hx Hux]].
-        rewrite Forall_forall in S2. destruct (S2 _ Hn) as [_ Hsp]. destruct (Hsp x Hx) as [b2 [t2 [Hb2 [Ht2 [Hid Hk]]]]].
-        rewrite Ek in Hk.
         destruct (unexpired_scanned _ Hux) as [b' [t' [Hb' [Ht' [Hid' HQ']]]]].
-        assert (t' = t2) by (apply (vu_tx _ HU b' t' b2 t2); auto; congruence). subst t2.
-        destruct (spenders (scanned_blocks s) (o_key o)) as [|y l] eqn:Es; [|discriminate].
-        pose proof (proj1 (spenders_nil _ _) Es) as Es'. apply (Es' b' t'); auto. apply in_scanned. auto.
+        (* [x] reveals some version's nullifier; being on the current chain, the chain's own *)
+        assert (Hxs : In x (spent_id (out_id t o) (w_notes s))) by (unfold spent_id; rewrite Hfn; assumption).
+        destruct (iv_sound _ _ _ Hinv) as [_ S2' _ _ _].
+        destruct (spent_char_w U _ _ _ S2' Hxs) as [b2 [t2 [kV [Hb2 [Ht2 [Hid2 [[bV [tV [oV [HbV [HtV [HoV [EiV EkV]]]]]]] HkV]]]]]]].
+        assert (Es : t_spends t' = t_spends t2) by (apply (same_tx_spends U HU b' t' b2 t2); auto; congruence).
+        assert (Hown2 : o_key oV = o_key o) by (apply (HownV b' t' bV tV oV b t o); auto; rewrite Es, EkV; assumption).
+        destruct (spenders (scanned_blocks s) (o_key o)) as [|y l] eqn:Es2; [|discriminate].
+        pose proof (proj1 (spenders_nil _ _) Es2) as Es'. apply (Es' b' t'); auto; [apply in_scanned; auto|].
+        rewrite Es, <- Hown2, EkV. assumption.
 Qed.
 
 Lemma balance_ledger_core a p :
@@ -314,17 +331,20 @@ Local Notation same_notes := (Spec.same_notes c).
 
 Lemma spent_iff_reveals s b t o n b' t' :
   inv c U s -> In b c -> In t (b_txs b) -> In o (t_outs t) -> owned o = true -> Qof (w_blocks s) (b_height b) ->
-  find_note (o_key o) (w_notes s) = Some n ->
+  find_id (out_id t o) (w_notes s) = Some n ->
   In b' c -> In t' (b_txs b') -> Qof (w_blocks s) (b_height b') ->
   (In (t_id t') (n_spent n) <-> In (o_key o) (t_spends t')).
 Proof.
   intros I Hb Ht Ho Hoo HQ Hn Hb' Ht' HQ'. split.
-  - intros Hin. destruct (find_note_In _ _ _ Hn) as [Hnin Hk].
-    destruct (iv_sound _ _ _ I) as [_ S2 _ _ _]. rewrite Forall_forall in S2. destruct (S2 _ Hnin) as [_ Hsp].
-    destruct (Hsp _ Hin) as [b2 [t2 [Hb2 [Ht2 [Hid Hk2]]]]].
-    assert (t2 = t') by (apply (vu_tx _ HU b2 t2 b' t'); auto). subst t2. congruence.
+  - intros Hin.
+    assert (Hxs : In (t_id t') (spent_id (out_id t o) (w_notes s))) by (unfold spent_id; rewrite Hn; assumption).
+    destruct (iv_sound _ _ _ I) as [_ S2 _ _ _].
+    destruct (spent_char_w U _ _ _ S2 Hxs) as [b2 [t2 [kV [Hb2 [Ht2 [Hid2 [[bV [tV [oV [HbV [HtV [HoV [EiV EkV]]]]]]] HkV]]]]]]].
+    assert (Es : t_spends t' = t_spends t2) by (apply (same_tx_spends U HU b' t' b2 t2); auto).
+    assert (Hown2 : o_key oV = o_key o) by (apply (HownV b' t' bV tV oV b t o); auto; rewrite Es, EkV; assumption).
+    rewrite Es, <- Hown2, EkV. assumption.
   - intros Hk. pose proof (iv_spent _ _ _ I b t o b' t' Hb Ht HQ Ho Hoo Hb' Ht' HQ' Hk) as Hin.
-    unfold spent_of in Hin. rewrite Hn in Hin. assumption.
+    unfold spent_id in Hin. rewrite Hn in Hin. assumption.
 Qed.
 
 Lemma same_blocks_same_notes s1 s2 :
@@ -333,8 +353,8 @@ Proof.
   intros I1 I2 HQ b t o Hb Ht Ho Hoo HQ1.
   assert (HQ2 : Qof (w_blocks s2) (b_height b)) by (apply HQ; assumption).
   destruct (o_owner o) as [a|] eqn:Eo; [|unfold owned in Hoo; rewrite Eo in Hoo; discriminate].
-  destruct (note_of_output s1 I1 b t o a Hb Ht Ho Eo HQ1) as [n1 [F1 [N1 [K1 [A1 [V1 R1]]]]]].
-  destruct (note_of_output s2 I2 b t o a Hb Ht Ho Eo HQ2) as [n2 [F2 [N2 [K2 [A2 [V2 R2]]]]]].
+  destruct (note_of_output s1 I1 b t o a Hb Ht Ho Eo HQ1) as [n1 [F1 [N1 [K1 [A1 [V1 [R1 _]]]]]]].
+  destruct (note_of_output s2 I2 b t o a Hb Ht Ho Eo HQ2) as [n2 [F2 [N2 [K2 [A2 [V2 [R2 _]]]]]]].
   exists n1, n2. repeat split; try assumption; try congruence.
   - intros Hin. apply (spent_iff_reveals s2 b t o n2 b' t' I2); auto; [apply HQ; assumption|].
     apply (spent_iff_reveals s1 b t o n1 b' t' I1); auto.
@@ -344,6 +364,30 @@ Qed.
 
 End Ledger.
 
+(** * The strict universe is a special case *)
+
+Lemma strict_weak U : valid_universe U -> weak_universe U.
+Proof.
+  intros HU. constructor.
+  - intros b t b' t' Hb Ht Hb' Ht' E. rewrite (vu_tx _ HU b t b' t' Hb Ht Hb' Ht' E). auto.
+  - intros b t o b' t' o' Hb Ht Ho Hb' Ht' Ho' E. destruct (vu_out _ HU b t o b' t' o' Hb Ht Ho Hb' Ht' Ho' E) as [-> ->]. reflexivity.
+  - apply (vu_idx _ HU).
+Qed.
+
+Lemma strict_own c U : valid_universe U -> incl c U -> own_versions c U.
+Proof.
+  intros HU Hin b1 t1 bV tV oV b0 t0 o Hb1 Ht1 HbV HtV HoV Hk Hb0 Ht0 Ho E.
+  unfold out_id in E. inversion E as [[Ep Et Ei]].
+  assert (tV = t0) by (apply (vu_tx _ HU bV tV b0 t0); auto). subst tV.
+  assert (oV = o) by (apply (vu_idx _ HU b0 t0 oV o); auto). subst. reflexivity.
+Qed.
+
+Lemma chain_weak birthday c : valid_chain birthday c -> weak_universe c.
+Proof. intros Hv. apply strict_weak. apply (valid_chain_universe birthday c Hv). Qed.
+
+Lemma chain_own birthday c : valid_chain birthday c -> own_versions c c.
+Proof. intros Hv. apply strict_own; [apply (valid_chain_universe birthday c Hv) | apply incl_refl]. Qed.
+
 (** * Statements about reachable states *)
 
 (** single chain: the universe is the chain itself *)
@@ -351,7 +395,7 @@ Lemma reach_inv birthday c ops s :
   valid_chain birthday c -> ops_on c ops -> run birthday init ops = Ok s -> inv c c s.
 Proof.
   intros Hv Hops Hrun.
-  exact (run_inv birthday c Hv c (incl_refl c) (valid_chain_universe birthday c Hv) ops init s Hops Hrun (init_inv c c)).
+  exact (run_inv birthday c Hv c (incl_refl c) (chain_weak birthday c Hv) (chain_own birthday c Hv) ops init s Hops Hrun (init_inv c c)).
 Qed.
 
 Lemma spends_complete_lemma :
@@ -363,9 +407,10 @@ Lemma spends_complete_lemma :
 Proof.
   intros birthday c ops s Hv Hops Hrun b t o b' t' Hb Ht Ho Hoo HQ Hb' Ht' Hk HQ'.
   pose proof (reach_inv _ _ _ _ Hv Hops Hrun) as I.
-  pose proof (iv_has _ _ _ I b t o Hb Ht HQ Ho Hoo) as Hhas. apply find_note_has in Hhas. destruct Hhas as [n Hn].
-  destruct (find_note_In _ _ _ Hn) as [Hin Hkey]. exists n. split; [assumption|]. split; [assumption|]. split.
-  - pose proof (iv_spent _ _ _ I b t o b' t' Hb Ht HQ Ho Hoo Hb' Ht' HQ' Hk) as H. unfold spent_of in H. rewrite Hn in H. assumption.
+  pose proof (iv_has _ _ _ I b t o Hb Ht HQ Ho Hoo) as Hkey. unfold key_id in Hkey.
+  destruct (find_id (out_id t o) (w_notes s)) as [n|] eqn:Hn; [|discriminate]. cbn in Hkey. injection Hkey as Hkeyn.
+  destruct (find_id_In _ _ _ Hn) as [Hin _]. exists n. split; [assumption|]. split; [assumption|]. split.
+  - pose proof (iv_spent _ _ _ I b t o b' t' Hb Ht HQ Ho Hoo Hb' Ht' HQ' Hk) as H. unfold spent_id in H. rewrite Hn in H. assumption.
   - exact (iv_spm _ _ _ I b t o b' t' Hb Ht HQ Ho Hoo Hb' Ht' HQ' Hk).
 Qed.
 
@@ -396,7 +441,7 @@ Lemma balance_is_ledger_lemma2 :
 Proof.
   intros birthday c ops s tp Hv Hops Hrun Htip Hor a p.
   pose proof (reach_inv _ _ _ _ Hv Hops Hrun) as I.
-  apply (balance_ledger_core birthday c Hv c (incl_refl c) (valid_chain_universe birthday c Hv) s I tp Htip).
+  apply (balance_ledger_core birthday c Hv c (incl_refl c) (chain_weak birthday c Hv) (chain_own birthday c Hv) s I tp Htip).
   apply (settled_live birthday c s tp Hv I Hor).
 Qed.
 
@@ -442,8 +487,8 @@ Proof.
   intros birthday c ops1 ops2 s1 s2 tp Hv H1 H2 R1 R2 HQ T1 T2 S1 S2.
   pose proof (reach_inv _ _ _ _ Hv H1 R1) as I1. pose proof (reach_inv _ _ _ _ Hv H2 R2) as I2.
   split.
-  - apply (same_blocks_same_notes c c (incl_refl c) (valid_chain_universe birthday c Hv)); assumption.
-  - intros a p. apply (same_blocks_same_balance birthday c Hv c (incl_refl c) (valid_chain_universe birthday c Hv)); auto; eapply settled_live; eauto.
+  - apply (same_blocks_same_notes c c (incl_refl c) (chain_weak birthday c Hv) (chain_own birthday c Hv)); assumption.
+  - intros a p. apply (same_blocks_same_balance birthday c Hv c (incl_refl c) (chain_weak birthday c Hv) (chain_own birthday c Hv)); auto; eapply settled_live; eauto.
 Qed.
 
 (** ** Fully scanned: the same tables as the linear scan *)
@@ -461,15 +506,17 @@ Proof.
       apply has_block_In in Hm. destruct Hm as [x Hx]. destruct (B1 _ Hx) as [b0 [Hb0 [Hh _]]]. cbn [fst] in Hh. rewrite <- Hh. apply A2. assumption.
     - destruct (iv_sound _ _ _ I2) as [B1 _ _ _ _]. rewrite Forall_forall in B1.
       apply has_block_In in Hm. destruct Hm as [x Hx]. destruct (B1 _ Hx) as [b0 [Hb0 [Hh _]]]. cbn [fst] in Hh. rewrite <- Hh. apply A1. assumption. }
-  destruct (same_blocks_same_notes c c (incl_refl c) (valid_chain_universe birthday c Hv) s1 s2 I1 I2 HQ b t o Hb Ht Ho Hoo (A1 b Hb))
+  destruct (same_blocks_same_notes c c (incl_refl c) (chain_weak birthday c Hv) (chain_own birthday c Hv) s1 s2 I1 I2 HQ b t o Hb Ht Ho Hoo (A1 b Hb))
     as [n1' [n2 [N1 [N2 [K1 [K2 [Ea [Ev' [Er' Hs]]]]]]]]].
   assert (n1' = n1).
-  { pose proof (In_find_note _ _ S3 N1) as F1. pose proof (In_find_note _ _ S3 Hn1) as F2.
+  { assert (S3k : NoDup (map n_key (w_notes s1))).
+    { destruct (iv_sound _ _ _ I1) as [_ S2f S3f _ _]. apply (sound_nodup_keys c (chain_weak birthday c Hv)); assumption. }
+    pose proof (In_find_note _ _ S3k N1) as F1. pose proof (In_find_note _ _ S3k Hn1) as F2.
     rewrite K1, Ek, F2 in F1. inversion F1. reflexivity. }
   subst n1'. exists n2. repeat split; try congruence.
-  - intros Hx. destruct (Hsp x Hx) as [b' [t' [Hb' [Ht' [<- _]]]]]. apply (Hs b' t' Hb' Ht' (A1 b' Hb')). assumption.
+  - intros Hx. destruct (Hsp x Hx) as [b' [t' [kV [Hb' [Ht' [<- _]]]]]]. apply (Hs b' t' Hb' Ht' (A1 b' Hb')). assumption.
   - intros Hx. destruct (iv_sound _ _ _ I2) as [_ S2' _ _ _]. rewrite Forall_forall in S2'.
-    destruct (S2' _ N2) as [_ Hsp2]. destruct (Hsp2 x Hx) as [b' [t' [Hb' [Ht' [<- _]]]]].
+    destruct (S2' _ N2) as [_ Hsp2]. destruct (Hsp2 x Hx) as [b' [t' [kV [Hb' [Ht' [<- _]]]]]].
     apply (Hs b' t' Hb' Ht' (A1 b' Hb')). assumption.
 Qed.
 
@@ -499,7 +546,7 @@ Proof.
     - destruct (iv_sound _ _ _ I) as [B1 _ _ _ _]. rewrite Forall_forall in B1.
       apply has_block_In in Hm. destruct Hm as [x Hx]. destruct (B1 _ Hx) as [b0 [Hb0 [Hh _]]]. cbn [fst] in Hh. rewrite <- Hh. apply Hall'. assumption.
     - apply Hset in Hm. destruct Hm as [Hm | Hm]; [discriminate|]. apply in_map_iff in Hm. destruct Hm as [b0 [<- Hb0]]. apply Hall. assumption. }
-  apply (same_blocks_same_balance birthday c Hv c (incl_refl c) (valid_chain_universe birthday c Hv) s sl tp a p I Il HQ Htp);
+  apply (same_blocks_same_balance birthday c Hv c (incl_refl c) (chain_weak birthday c Hv) (chain_own birthday c Hv) s sl tp a p I Il HQ Htp);
     [congruence | |]; apply (settled_live birthday c _ tp Hv); auto; right; assumption.
 Qed.
 
@@ -521,17 +568,17 @@ Lemma scan_idempotent_lemma :
 Proof.
   intros birthday c ops s bs s1 s2 Hv Hops Hrun Hin H1 H2.
   pose proof (reach_inv _ _ _ _ Hv Hops Hrun) as I.
-  pose proof (scan_inv birthday c Hv c (incl_refl c) (valid_chain_universe birthday c Hv) s bs s1 Hin H1 I) as I1.
-  pose proof (scan_inv birthday c Hv c (incl_refl c) (valid_chain_universe birthday c Hv) s1 bs s2 Hin H2 I1) as I2.
+  pose proof (scan_inv birthday c Hv c (incl_refl c) (chain_weak birthday c Hv) (chain_own birthday c Hv) s bs s1 Hin H1 I) as I1.
+  pose proof (scan_inv birthday c Hv c (incl_refl c) (chain_weak birthday c Hv) (chain_own birthday c Hv) s1 bs s2 Hin H2 I1) as I2.
   destruct (scan_effect _ _ _ _ H1) as [Q1 [_ T1]]. destruct (scan_effect _ _ _ _ H2) as [Q2 [F2 T2]].
   assert (HQ : forall m, has_block (w_blocks s2) m = true <-> has_block (w_blocks s1) m = true).
   { intros m. rewrite Q2. split; [intros [? | Hm]; [assumption | apply Q1; right; assumption] | auto]. }
   assert (HT : w_tip s2 = w_tip s1).
   { rewrite T2. destruct bs; [reflexivity|]. rewrite T1. apply max_opt_idem. }
   split; [exact HQ|]. split; [exact HT|]. split.
-  - apply (same_blocks_same_notes c c (incl_refl c) (valid_chain_universe birthday c Hv)); auto. intros m. symmetry. apply HQ.
+  - apply (same_blocks_same_notes c c (incl_refl c) (chain_weak birthday c Hv) (chain_own birthday c Hv)); auto. intros m. symmetry. apply HQ.
   - intros tp Htp Hset a p.
-    apply (same_blocks_same_balance birthday c Hv c (incl_refl c) (valid_chain_universe birthday c Hv) s2 s1 tp a p I2 I1 HQ); [congruence | assumption | |].
+    apply (same_blocks_same_balance birthday c Hv c (incl_refl c) (chain_weak birthday c Hv) (chain_own birthday c Hv) s2 s1 tp a p I2 I1 HQ); [congruence | assumption | |].
     + apply (settled_live birthday c s2 tp Hv I2). destruct Hset as [Hd | Ha].
       * left. intros r Hr Hnone. destruct (F2 r Hr) as [Hold | Hm]; [apply Hd; assumption | contradiction].
       * right. intros b Hb. apply HQ. apply Ha. assumption.
@@ -541,61 +588,65 @@ Qed.
 (** * Histories over several branches (rewind followed by a different continuation) *)
 
 Lemma reach_facts U birthday c s :
-  valid_universe U -> reach U birthday c s -> valid_chain birthday c /\ incl c U /\ inv c U s.
+  weak_universe U -> reach_w U birthday c s -> valid_chain birthday c /\ incl c U /\ own_versions c U /\ inv c U s.
 Proof.
-  intros HU H. induction H as [c Hv Hin | c s o s' H IH Hop Hstep | c s c' h H IH Hle Hag Hv' Hin'].
-  - split; [assumption|]. split; [assumption | apply init_inv].
-  - destruct IH as [Hv [Hin I]]. split; [assumption|]. split; [assumption|].
+  intros HU H. induction H as [c Hv Hin Hown | c s o s' H IH Hop Hstep | c s c' h H IH Hle Hag Hv' Hin' Hown'].
+  - split; [assumption|]. split; [assumption|]. split; [assumption | apply init_inv].
+  - destruct IH as [Hv [Hin [Hown I]]]. split; [assumption|]. split; [assumption|]. split; [assumption|].
     destruct o as [bs | h | h]; cbn [step] in Hstep.
-    + eapply (scan_inv birthday c Hv U Hin HU); eauto.
+    + eapply (scan_inv birthday c Hv U Hin HU Hown); eauto.
     + inversion Hstep; subst. apply update_tip_inv. assumption.
     + inversion Hstep; subst. apply (truncate_inv birthday c Hv). assumption.
-  - destruct IH as [Hv [Hin I]]. split; [assumption|]. split; [assumption|].
+  - destruct IH as [Hv [Hin [Hown I]]]. split; [assumption|]. split; [assumption|]. split; [assumption|].
     eapply (switch_inv birthday U c c' s h); eauto.
 Qed.
 
 Lemma forks_spends_complete_lemma :
-  forall U birthday c s, valid_universe U -> reach U birthday c s ->
+  forall U birthday c s, weak_universe U -> reach_w U birthday c s ->
   forall b t o b' t',
     In b c -> In t (b_txs b) -> In o (t_outs t) -> owned o = true -> has_block (w_blocks s) (b_height b) = true ->
     In b' c -> In t' (b_txs b') -> In (o_key o) (t_spends t') -> has_block (w_blocks s) (b_height b') = true ->
     exists n, In n (w_notes s) /\ n_key n = o_key o /\ In (t_id t') (n_spent n) /\ row_mined (w_txs s) (t_id t') = true.
 Proof.
   intros U birthday c s HU Hr b t o b' t' Hb Ht Ho Hoo HQ Hb' Ht' Hk HQ'.
-  destruct (reach_facts _ _ _ _ HU Hr) as [Hv [Hin I]].
-  pose proof (iv_has _ _ _ I b t o Hb Ht HQ Ho Hoo) as Hhas. apply find_note_has in Hhas. destruct Hhas as [n Hn].
-  destruct (find_note_In _ _ _ Hn) as [Hnin Hkey]. exists n. split; [assumption|]. split; [assumption|]. split.
-  - pose proof (iv_spent _ _ _ I b t o b' t' Hb Ht HQ Ho Hoo Hb' Ht' HQ' Hk) as H. unfold spent_of in H. rewrite Hn in H. assumption.
+  destruct (reach_facts _ _ _ _ HU Hr) as [Hv [Hin [Hown I]]].
+  pose proof (iv_has _ _ _ I b t o Hb Ht HQ Ho Hoo) as Hkey. unfold key_id in Hkey.
+  destruct (find_id (out_id t o) (w_notes s)) as [n|] eqn:Hn; [|discriminate]. cbn in Hkey. injection Hkey as Hkeyn.
+  destruct (find_id_In _ _ _ Hn) as [Hnin _]. exists n. split; [assumption|]. split; [assumption|]. split.
+  - pose proof (iv_spent _ _ _ I b t o b' t' Hb Ht HQ Ho Hoo Hb' Ht' HQ' Hk) as H. unfold spent_id in H. rewrite Hn in H. assumption.
   - exact (iv_spm _ _ _ I b t o b' t' Hb Ht HQ Ho Hoo Hb' Ht' HQ' Hk).
 Qed.
 
 Lemma forks_sound_lemma :
-  forall U birthday c s, valid_universe U -> reach U birthday c s ->
+  forall U birthday c s, weak_universe U -> reach_w U birthday c s ->
     (forall n, In n (w_notes s) ->
        (exists b t o, In b U /\ In t (b_txs b) /\ In o (t_outs t) /\ o_owner o = Some (n_acct n)
                       /\ o_key o = n_key n /\ o_value o = n_value n /\ t_id t = n_recv n /\ o_idx o = n_idx n)
        /\ (forall tid, In tid (n_spent n) ->
-             exists b t, In b U /\ In t (b_txs b) /\ t_id t = tid /\ In (n_key n) (t_spends t)))
+             exists b t k, In b U /\ In t (b_txs b) /\ t_id t = tid /\ version U (nid n) k /\ In k (t_spends t)))
+    /\ NoDup (map nid (w_notes s))
     /\ NoDup (map n_key (w_notes s))
     /\ (forall h x, In (h, x) (w_blocks s) -> exists b, In b c /\ b_height b = h /\ b_hash b = x).
 Proof.
-  intros U birthday c s HU Hr. destruct (reach_facts _ _ _ _ HU Hr) as [Hv [Hin I]].
-  destruct (iv_sound _ _ _ I) as [S1 S2 S3 _ _]. rewrite Forall_forall in S1, S2.
-  split; [exact S2|]. split; [exact S3|]. intros h x Hx. exact (S1 _ Hx).
+  intros U birthday c s HU Hr. destruct (reach_facts _ _ _ _ HU Hr) as [Hv [Hin [Hown I]]].
+  destruct (iv_sound _ _ _ I) as [S1 S2 S3 _ _].
+  split; [rewrite Forall_forall in S2; exact S2|]. split; [exact S3|].
+  split; [apply (sound_nodup_keys U HU); assumption|].
+  rewrite Forall_forall in S1. intros h x Hx. exact (S1 _ Hx).
 Qed.
 
 Lemma forks_balance_lemma :
-  forall U birthday c s tp, valid_universe U -> reach U birthday c s ->
+  forall U birthday c s tp, weak_universe U -> reach_w U birthday c s ->
   w_tip s = Some tp -> orphans_dead s (tp + 1) ->
   forall a p, bal_total s (tp + 1) a p + bal_uneconomic s (tp + 1) a p = ledger (scanned_blocks c s) a p.
 Proof.
-  intros U birthday c s tp HU Hr Htip Hd a p. destruct (reach_facts _ _ _ _ HU Hr) as [Hv [Hin I]].
-  apply (balance_ledger_core birthday c Hv U Hin HU s I tp Htip). apply orphans_dead_live. assumption.
+  intros U birthday c s tp HU Hr Htip Hd a p. destruct (reach_facts _ _ _ _ HU Hr) as [Hv [Hin [Hown I]]].
+  apply (balance_ledger_core birthday c Hv U Hin HU Hown s I tp Htip). apply orphans_dead_live. assumption.
 Qed.
 
 Lemma forks_order_independence_lemma :
-  forall U birthday c s1 s2 tp, valid_universe U ->
-    reach U birthday c s1 -> reach U birthday c s2 ->
+  forall U birthday c s1 s2 tp, weak_universe U ->
+    reach_w U birthday c s1 -> reach_w U birthday c s2 ->
     (forall m, has_block (w_blocks s1) m = true <-> has_block (w_blocks s2) m = true) ->
     w_tip s1 = Some tp -> w_tip s2 = Some tp ->
     orphans_dead s1 (tp + 1) -> orphans_dead s2 (tp + 1) ->
@@ -604,15 +655,15 @@ Lemma forks_order_independence_lemma :
                    /\ bal_uneconomic s1 (tp + 1) a p = bal_uneconomic s2 (tp + 1) a p.
 Proof.
   intros U birthday c s1 s2 tp HU R1 R2 HQ T1 T2 D1 D2.
-  destruct (reach_facts _ _ _ _ HU R1) as [Hv [Hin I1]]. destruct (reach_facts _ _ _ _ HU R2) as [_ [_ I2]].
+  destruct (reach_facts _ _ _ _ HU R1) as [Hv [Hin [Hown I1]]]. destruct (reach_facts _ _ _ _ HU R2) as [_ [_ [_ I2]]].
   split.
-  - apply (same_blocks_same_notes c U Hin HU); assumption.
-  - intros a p. apply (same_blocks_same_balance birthday c Hv U Hin HU); auto; apply orphans_dead_live; assumption.
+  - apply (same_blocks_same_notes c U Hin HU Hown); assumption.
+  - intros a p. apply (same_blocks_same_balance birthday c Hv U Hin HU Hown); auto; apply orphans_dead_live; assumption.
 Qed.
 
 Lemma forks_linear_scan_lemma :
-  forall U birthday c s sl tp, valid_universe U ->
-    reach U birthday c s ->
+  forall U birthday c s sl tp, weak_universe U ->
+    reach_w U birthday c s ->
     run birthday init [OScan c] = Ok sl ->
     all_scanned c s -> w_tip s = Some tp -> w_tip sl = Some tp -> orphans_dead s (tp + 1) ->
     same_notes c s sl /\ same_notes c sl s
@@ -620,13 +671,13 @@ Lemma forks_linear_scan_lemma :
                    /\ bal_uneconomic s (tp + 1) a p = bal_uneconomic sl (tp + 1) a p.
 Proof.
   intros U birthday c s sl tp HU Hr Hlin Hall Htip Htipl Hd.
-  destruct (reach_facts _ _ _ _ HU Hr) as [Hv [Hin I]].
+  destruct (reach_facts _ _ _ _ HU Hr) as [Hv [Hin [Hown I]]].
   assert (Hscan : scan birthday init c = Ok sl).
   { cbn [run step] in Hlin. destruct (scan birthday init c) as [s1| |]; inversion Hlin; reflexivity. }
-  assert (Hrl : reach U birthday c sl).
-  { apply (reach_op U birthday c init (OScan c) sl); [apply reach_init; assumption | | exact Hscan].
+  assert (Hrl : reach_w U birthday c sl).
+  { apply (reachw_op U birthday c init (OScan c) sl); [apply reachw_init; assumption | | exact Hscan].
     intros bs E. inversion E; subst. apply incl_refl. }
-  destruct (reach_facts _ _ _ _ HU Hrl) as [_ [_ Il]].
+  destruct (reach_facts _ _ _ _ HU Hrl) as [_ [_ [_ Il]]].
   destruct (scan_effect _ _ _ _ Hscan) as [Hset [Hfrom _]].
   assert (HQ : forall m, Qof (w_blocks s) m <-> Qof (w_blocks sl) m).
   { intros m. split; intros Hm.
@@ -636,9 +687,9 @@ Proof.
     - apply Hset in Hm. destruct Hm as [Hm | Hm]; [discriminate|]. apply in_map_iff in Hm. destruct Hm as [b0 [<- Hb0]]. apply Hall. assumption. }
   assert (Hdl : orphans_dead sl (tp + 1)).
   { intros r Hr0 Hnone. exfalso. destruct (Hfrom r Hr0) as [[] | Hm]. contradiction. }
-  split; [apply (same_blocks_same_notes c U Hin HU); assumption|].
-  split; [apply (same_blocks_same_notes c U Hin HU); auto; intros m; symmetry; apply HQ|].
-  intros a p. apply (same_blocks_same_balance birthday c Hv U Hin HU); auto; apply orphans_dead_live; assumption.
+  split; [apply (same_blocks_same_notes c U Hin HU Hown); assumption|].
+  split; [apply (same_blocks_same_notes c U Hin HU Hown); auto; intros m; symmetry; apply HQ|].
+  intros a p. apply (same_blocks_same_balance birthday c Hv U Hin HU Hown); auto; apply orphans_dead_live; assumption.
 Qed.
 
 (** * Single chain: soundness and receipt completeness as corollaries *)
@@ -655,8 +706,17 @@ Lemma ledger_sound_lemma :
     /\ (forall h x, In (h, x) (w_blocks s) -> exists b, In b c /\ b_height b = h /\ b_hash b = x).
 Proof.
   intros birthday c ops s Hv Hops Hrun. pose proof (reach_inv _ _ _ _ Hv Hops Hrun) as I.
-  destruct (iv_sound _ _ _ I) as [S1 S2 S3 _ _]. rewrite Forall_forall in S1, S2.
-  split; [exact S2|]. split; [exact S3|]. intros h x Hx. exact (S1 _ Hx).
+  destruct (iv_sound _ _ _ I) as [S1 S2 S3 _ _].
+  assert (S3k : NoDup (map n_key (w_notes s))) by (apply (sound_nodup_keys c (chain_weak birthday c Hv)); assumption).
+  rewrite Forall_forall in S1, S2.
+  split; [|split; [exact S3k | intros h x Hx; exact (S1 _ Hx)]].
+  intros n Hn. destruct (S2 _ Hn) as [Hc Hsp]. split; [exact Hc|].
+  intros tid Ht. destruct (Hsp tid Ht) as [b' [t' [kV [Hb' [Ht' [Hid [[bV [tV [oV [HbV [HtV [HoV [EiV EkV]]]]]]] HkV]]]]]]].
+  exists b', t'. repeat split; try assumption.
+  destruct Hc as [b [t [o [Hb [Htt [Ho [_ [Ek [_ [Er Ei]]]]]]]]]].
+  assert (Eid : out_id tV oV = out_id t o).
+  { rewrite EiV. unfold nid, out_id. rewrite <- Ek. cbn [o_key fst]. congruence. }
+  destruct (chain_out_id birthday c Hv bV tV oV b t o) as [_ [_ ->]]; auto. rewrite <- Ek, <- EkV in *. congruence.
 Qed.
 
 Lemma receipts_complete_lemma :
@@ -668,6 +728,85 @@ Lemma receipts_complete_lemma :
 Proof.
   intros birthday c ops s Hv Hops Hrun b t o a Hb HQ Ht Ho Hown.
   pose proof (reach_inv _ _ _ _ Hv Hops Hrun) as I.
-  destruct (note_of_output c c (incl_refl c) (valid_chain_universe birthday c Hv) s I b t o a Hb Ht Ho Hown HQ) as [n [_ [Hn [Ek [Ea [Ev _]]]]]].
+  destruct (note_of_output c c (incl_refl c) (chain_weak birthday c Hv) s I b t o a Hb Ht Ho Hown HQ) as [n [_ [Hn [Ek [Ea [Ev _]]]]]].
   exists n. auto.
+Qed.
+
+(** * The statements for the strict universe, as corollaries *)
+
+Lemma reach_strict_w U birthday c s : valid_universe U -> reach U birthday c s -> reach_w U birthday c s.
+Proof.
+  intros HU H. induction H as [c Hv Hin | c s o s' H IH Hop Hstep | c s c' h H IH Hle Hag Hv' Hin'].
+  - apply reachw_init; auto. apply strict_own; assumption.
+  - eapply reachw_op; eauto.
+  - eapply reachw_switch; eauto. apply strict_own; assumption.
+Qed.
+
+Lemma strict_forks_sound_lemma :
+  forall U birthday c s, valid_universe U -> reach U birthday c s ->
+    (forall n, In n (w_notes s) ->
+       (exists b t o, In b U /\ In t (b_txs b) /\ In o (t_outs t) /\ o_owner o = Some (n_acct n)
+                      /\ o_key o = n_key n /\ o_value o = n_value n /\ t_id t = n_recv n /\ o_idx o = n_idx n)
+       /\ (forall tid, In tid (n_spent n) ->
+             exists b t, In b U /\ In t (b_txs b) /\ t_id t = tid /\ In (n_key n) (t_spends t)))
+    /\ NoDup (map n_key (w_notes s))
+    /\ (forall h x, In (h, x) (w_blocks s) -> exists b, In b c /\ b_height b = h /\ b_hash b = x).
+Proof.
+  intros U birthday c s HU Hr.
+  destruct (forks_sound_lemma U birthday c s (strict_weak U HU) (reach_strict_w _ _ _ _ HU Hr)) as [S2 [_ [S3k S1]]].
+  split; [|split; assumption].
+  intros n Hn. destruct (S2 _ Hn) as [Hc Hsp]. split; [exact Hc|].
+  intros tid Ht. destruct (Hsp tid Ht) as [b' [t' [kV [Hb' [Ht' [Hid [[bV [tV [oV [HbV [HtV [HoV [EiV EkV]]]]]]] HkV]]]]]]].
+  exists b', t'. repeat split; try assumption.
+  destruct Hc as [b [t [o [Hb [Htt [Ho [_ [Ek [_ [Er Ei]]]]]]]]]].
+  assert (Eid : out_id tV oV = out_id t o).
+  { rewrite EiV. unfold nid, out_id. rewrite <- Ek. cbn [o_key fst]. congruence. }
+  unfold out_id in Eid. inversion Eid as [[Ep Et Eidx]].
+  assert (tV = t) by (apply (vu_tx _ HU bV tV b t); auto). subst tV.
+  assert (oV = o) by (apply (vu_idx _ HU b t oV o); auto). subst oV. congruence.
+Qed.
+
+Lemma strict_forks_spends_complete_lemma :
+  forall U birthday c s, valid_universe U -> reach U birthday c s ->
+  forall b t o b' t',
+    In b c -> In t (b_txs b) -> In o (t_outs t) -> owned o = true -> has_block (w_blocks s) (b_height b) = true ->
+    In b' c -> In t' (b_txs b') -> In (o_key o) (t_spends t') -> has_block (w_blocks s) (b_height b') = true ->
+    exists n, In n (w_notes s) /\ n_key n = o_key o /\ In (t_id t') (n_spent n) /\ row_mined (w_txs s) (t_id t') = true.
+Proof.
+  intros U birthday c s HU Hr. exact (forks_spends_complete_lemma U birthday c s (strict_weak U HU) (reach_strict_w _ _ _ _ HU Hr)).
+Qed.
+
+Lemma strict_forks_balance_lemma :
+  forall U birthday c s tp, valid_universe U -> reach U birthday c s ->
+  w_tip s = Some tp -> orphans_dead s (tp + 1) ->
+  forall a p, bal_total s (tp + 1) a p + bal_uneconomic s (tp + 1) a p = ledger (scanned_blocks c s) a p.
+Proof.
+  intros U birthday c s tp HU Hr. exact (forks_balance_lemma U birthday c s tp (strict_weak U HU) (reach_strict_w _ _ _ _ HU Hr)).
+Qed.
+
+Lemma strict_forks_order_independence_lemma :
+  forall U birthday c s1 s2 tp, valid_universe U ->
+    reach U birthday c s1 -> reach U birthday c s2 ->
+    (forall m, has_block (w_blocks s1) m = true <-> has_block (w_blocks s2) m = true) ->
+    w_tip s1 = Some tp -> w_tip s2 = Some tp ->
+    orphans_dead s1 (tp + 1) -> orphans_dead s2 (tp + 1) ->
+    same_notes c s1 s2
+    /\ forall a p, bal_total s1 (tp + 1) a p = bal_total s2 (tp + 1) a p
+                   /\ bal_uneconomic s1 (tp + 1) a p = bal_uneconomic s2 (tp + 1) a p.
+Proof.
+  intros U birthday c s1 s2 tp HU R1 R2.
+  exact (forks_order_independence_lemma U birthday c s1 s2 tp (strict_weak U HU) (reach_strict_w _ _ _ _ HU R1) (reach_strict_w _ _ _ _ HU R2)).
+Qed.
+
+Lemma strict_forks_linear_scan_lemma :
+  forall U birthday c s sl tp, valid_universe U ->
+    reach U birthday c s ->
+    run birthday init [OScan c] = Ok sl ->
+    all_scanned c s -> w_tip s = Some tp -> w_tip sl = Some tp -> orphans_dead s (tp + 1) ->
+    same_notes c s sl /\ same_notes c sl s
+    /\ forall a p, bal_total s (tp + 1) a p = bal_total sl (tp + 1) a p
+                   /\ bal_uneconomic s (tp + 1) a p = bal_uneconomic sl (tp + 1) a p.
+Proof.
+  intros U birthday c s sl tp HU Hr.
+  exact (forks_linear_scan_lemma U birthday c s sl tp (strict_weak U HU) (reach_strict_w _ _ _ _ HU Hr)).
 Qed.
